@@ -42,10 +42,13 @@ import (
 // configuration handed over by the reporter
 
 type c20Variant struct {
-	ID     string `json:"id"`
-	Header string `json:"header"` // value of the Authorization header ("" + Absent => header not sent)
-	Absent bool   `json:"absent"`
-	Phase  string `json:"phase"` // order of sending: "deny" (must be rejected) first, then "late" (malformed / lenient
+	ID          string `json:"id"`
+	Header      string `json:"header"` // value of the Authorization header ("" + Absent => header not sent)
+	Absent      bool   `json:"absent"`
+	Combos      []int  `json:"combos"`       // request-header combinations (indexes into Config.Combos) sent with this value
+	TCPCombos   []int  `json:"tcp_combos"`   // ... through the real listener
+	ProbeCombos []int  `json:"probe_combos"` // ... with methods that are not registered on the path ([0] = OPTIONS, [1] = others)
+	Phase       string `json:"phase"`        // order of sending: "deny" (must be rejected) first, then "late" (malformed / lenient
 	// shapes that a defective or lenient implementation may let through), then "allow" (right credentials)
 	TCP bool `json:"tcp"` // also sent through the real listener
 }
@@ -57,15 +60,20 @@ type c20Config struct {
 	Login      string       `json:"login"`
 	Password   string       `json:"password"`
 	Variants   []c20Variant `json:"variants"`
-	AccEnc     []string     `json:"accept_encoding"` // "" = absent
-	Origins    []string     `json:"origins"`         // "" = absent
-	ExtraMeth  []string     `json:"extra_methods"`   // unregistered-method probes sent to every walked path
-	ProbePaths []string     `json:"probe_paths"`     // unregistered paths probed through the real listener
-	Only       *c20Only     `json:"only"`            // replay: send only this request
+	Combos     []c20Combo   `json:"header_combos"` // the request-header vocabulary product, built by the reporter
+	ExtraMeth  []string     `json:"extra_methods"` // unregistered-method probes sent to every walked path
+	ProbePaths []string     `json:"probe_paths"`   // unregistered paths probed through the real listener
+	Only       *c20Only     `json:"only"`          // replay: send only this request
+}
+
+type c20Combo struct {
+	ID      string      `json:"id"`
+	Headers [][2]string `json:"headers"`
+	Body    []byte      `json:"body"` // sent when the combination carries a Content-Encoding
 }
 
 type c20Only struct {
-	Path, Method, VariantID, AccEnc, Origin, Via string
+	Path, Method, VariantID, Combo, Via string
 }
 
 // ---------------------------------------------------------------------------------------------------------------
@@ -243,8 +251,7 @@ type c20Record struct {
 	Method    string `json:"method"`
 	Reg       bool   `json:"registered_method"`
 	Variant   string `json:"variant"`
-	AccEnc    string `json:"ae"`
-	Origin    string `json:"origin"`
+	Combo     string `json:"combo"`
 	Status    int    `json:"status"`
 	Body      string `json:"body"` // first 48 bytes of the (decoded) body
 	WWWAuth   string `json:"www_auth,omitempty"`
@@ -385,6 +392,8 @@ func c20Instantiate(tpl string) []string {
 	}
 	return out
 }
+
+var noCombo = c20Combo{ID: "-"}
 
 func TestVerifC20(t *testing.T) {
 	cfgPath := os.Getenv("VERIF_C20_CONFIG")
@@ -549,7 +558,14 @@ func TestVerifC20(t *testing.T) {
 			meth = r.Methods[0]
 		}
 		var cands []string
+		if r.Template == "" {
+			// a route without a path matcher (e.g. router.Methods("OPTIONS")): any path reaches it
+			cands = append(cands, "/zz-verif-any-path", "/")
+		}
 		for _, p := range c20Instantiate(r.Template) {
+			if p == "" {
+				continue
+			}
 			if r.Prefix {
 				cands = append(cands, strings.TrimSuffix(p, "/")+"/zz-verif", p)
 			} else {
@@ -593,14 +609,26 @@ func TestVerifC20(t *testing.T) {
 		method string
 		reg    bool
 		v      c20Variant
-		ae, og string
+		combo  int
 	}
 	build := func(s reqSpec, base string) *http.Request {
 		var rq *http.Request
+		cb := noCombo
+		if s.combo >= 0 && s.combo < len(cfg.Combos) {
+			cb = cfg.Combos[s.combo]
+		}
 		if base == "" {
-			rq = httptest.NewRequest(s.method, s.path, nil)
+			if len(cb.Body) > 0 {
+				rq = httptest.NewRequest(s.method, s.path, bytes.NewReader(cb.Body))
+			} else {
+				rq = httptest.NewRequest(s.method, s.path, nil)
+			}
 		} else {
-			rq, _ = http.NewRequest(s.method, base+s.path, nil)
+			if len(cb.Body) > 0 {
+				rq, _ = http.NewRequest(s.method, base+s.path, bytes.NewReader(cb.Body))
+			} else {
+				rq, _ = http.NewRequest(s.method, base+s.path, nil)
+			}
 		}
 		if s.route != nil && s.route.Host != "" {
 			rq.Host = c20Instantiate(s.route.Host)[0]
@@ -608,11 +636,8 @@ func TestVerifC20(t *testing.T) {
 		if !s.v.Absent {
 			rq.Header["Authorization"] = []string{s.v.Header}
 		}
-		if s.ae != "" {
-			rq.Header.Set("Accept-Encoding", s.ae)
-		}
-		if s.og != "" {
-			rq.Header.Set("Origin", s.og)
+		for _, h := range cb.Headers {
+			rq.Header[http.CanonicalHeaderKey(h[0])] = []string{h[1]}
 		}
 		return rq
 	}
@@ -624,7 +649,10 @@ func TestVerifC20(t *testing.T) {
 	slowGraces, reruns := 0, 0
 	send := func(s reqSpec, via, phase string) c20Record {
 		rec := c20Record{T: "req", Via: via, Phase: phase, Route: -1, Path: s.path, Method: s.method, Reg: s.reg,
-			Variant: s.v.ID, AccEnc: s.ae, Origin: s.og}
+			Variant: s.v.ID}
+		if s.combo >= 0 && s.combo < len(cfg.Combos) {
+			rec.Combo = cfg.Combos[s.combo].ID
+		}
 		if s.route != nil {
 			rec.Route = s.route.Idx
 		}
@@ -723,6 +751,16 @@ func TestVerifC20(t *testing.T) {
 		return rec
 	}
 
+	probeOther := map[int]bool{} // combinations without any CORS preflight header
+	for i, cb := range cfg.Combos {
+		plain := true
+		for _, h := range cb.Headers {
+			if strings.HasPrefix(h[0], "Access-Control-") || h[0] == "Content-Encoding" || h[0] == "Accept-Encoding" {
+				plain = false
+			}
+		}
+		probeOther[i] = plain
+	}
 	var specs []reqSpec
 	for _, r := range routes {
 		if !r.HasHandle || r.URL == "" {
@@ -736,10 +774,8 @@ func TestVerifC20(t *testing.T) {
 		for _, m := range meths {
 			seen[m] = true
 			for _, v := range cfg.Variants {
-				for _, ae := range cfg.AccEnc {
-					for _, og := range cfg.Origins {
-						specs = append(specs, reqSpec{r, r.URL, m, true, v, ae, og})
-					}
+				for _, ci := range v.Combos {
+					specs = append(specs, reqSpec{r, r.URL, m, true, v, ci})
 				}
 			}
 		}
@@ -748,11 +784,11 @@ func TestVerifC20(t *testing.T) {
 				continue
 			}
 			for _, v := range cfg.Variants {
-				if v.Phase != "deny" || !v.TCP { // reduced alphabet for unregistered-method probes
-					continue
-				}
-				for _, og := range cfg.Origins {
-					specs = append(specs, reqSpec{r, r.URL, m, false, v, "", og})
+				for _, ci := range v.ProbeCombos { // reduced alphabet for unregistered-method probes
+					if m != "OPTIONS" && !probeOther[ci] {
+						continue // the full CORS vocabulary goes with OPTIONS, the other methods get the base combinations
+					}
+					specs = append(specs, reqSpec{r, r.URL, m, false, v, ci})
 				}
 			}
 		}
@@ -760,7 +796,7 @@ func TestVerifC20(t *testing.T) {
 	if o := cfg.Only; o != nil {
 		var keep []reqSpec
 		for _, s := range specs {
-			if s.path == o.Path && s.method == o.Method && s.v.ID == o.VariantID && s.ae == o.AccEnc && s.og == o.Origin {
+			if s.path == o.Path && s.method == o.Method && s.v.ID == o.VariantID && s.combo >= 0 && s.combo < len(cfg.Combos) && cfg.Combos[s.combo].ID == o.Combo {
 				keep = append(keep, s)
 			}
 		}
@@ -805,7 +841,17 @@ func TestVerifC20(t *testing.T) {
 		out.flush()
 	}
 	all := func(reqSpec) bool { return true }
-	tcpSel := func(s reqSpec) bool { return s.v.TCP && s.reg }
+	tcpSel := func(s reqSpec) bool {
+		if !s.v.TCP || !s.reg {
+			return false
+		}
+		for _, ci := range s.v.TCPCombos {
+			if ci == s.combo {
+				return true
+			}
+		}
+		return false
+	}
 
 	// phase "deny": nothing may reach a handler or the database
 	run("deny", "inproc", all)
@@ -824,7 +870,7 @@ func TestVerifC20(t *testing.T) {
 			if len(mp) != 2 {
 				continue
 			}
-			rec := send(reqSpec{nil, mp[1], mp[0], false, c20Variant{ID: "absent", Absent: true, Phase: "deny"}, "", ""}, "tcp", "probe")
+			rec := send(reqSpec{nil, mp[1], mp[0], false, c20Variant{ID: "absent", Absent: true, Phase: "deny"}, -1}, "tcp", "probe")
 			out.emit(rec)
 		}
 		// any other TCP listener of this process gets the same probes
@@ -839,7 +885,7 @@ func TestVerifC20(t *testing.T) {
 				if len(mp) != 2 {
 					continue
 				}
-				rec := send(reqSpec{nil, mp[1], mp[0], false, c20Variant{ID: "absent", Absent: true, Phase: "deny"}, "", ""}, "tcp", "probe")
+				rec := send(reqSpec{nil, mp[1], mp[0], false, c20Variant{ID: "absent", Absent: true, Phase: "deny"}, -1}, "tcp", "probe")
 				rec.Via = fmt.Sprintf("tcp:%d", port)
 				out.emit(rec)
 			}
